@@ -123,7 +123,7 @@ End SortBy.
 
 (* ---------- integer coding ---------------------------------------------------------------------
    kind container n members... then:
-   kind 0 (assumptions): member = id fn ; ops = (code idx d0..d7) : code 0 verify_all, 1 verify_one
+   kind 0 (assumptions): member = id fn ; ops = (code idx d0..d7) : code 0 verify_all, 1 verify_one, 2 continue on a clone
                          output: per op: return value, then assum_obs
    kind 1 (inferences):  member = id obs thr eff tgt ; output infer_obs
    kind 2 (observations): member = id obs eff ; then queries (thr tgt)* ; output per query obs_obs
@@ -143,7 +143,8 @@ Fixpoint arun (sorted : bool) (l : list assumption) (ops : list Z) (fuel : nat) 
     match ops with
     | c :: i :: rest =>
         let data := map (fun z => Z.eqb z 1) (firstn 8 rest) in
-        let '(l', r) := astep l (if Z.eqb c 0 then AVerifyAll data else AVerifyOne (Z.to_nat i) data) in
+        (* code 2: the harness continues on a CLONE of the collection - an assumption's verification state travels with it *)
+        let '(l', r) := if Z.eqb c 2 then (l, 0%Z) else astep l (if Z.eqb c 0 then AVerifyAll data else AVerifyOne (Z.to_nat i) data) in
         r :: assum_obs (if sorted then sort_by aid l' else l') ++ arun sorted l' (skipn 8 rest) f
     | _ => []
     end
